@@ -117,6 +117,10 @@ func (g *tokgen) value(depth int) *model.Value {
 				s.Elem = append(s.Elem, model.NewStr(g.str()))
 			case 1: // rows of maps with differing keys
 				m := model.NewMap()
+				if len(s.Elem) > 0 && rapid.IntRange(0, 1).Draw(g.t, "nestedrow") == 0 {
+					// a later row that holds something a flat format cannot write: the run fails, the cell is not left empty
+					m.Set(s.Elem[0].Keys[0], model.NewMap().Set(g.key(), model.NewStr(g.str())))
+				}
 				m.Set(g.key(), model.NewInt(g.num()))
 				if rapid.Bool().Draw(g.t, "two") {
 					m.Set(g.key(), model.NewStr(g.str()))
@@ -198,6 +202,21 @@ func genFmt(t *rapid.T) FmtCase {
 	}
 	if g.special && rapid.Bool().Draw(t, "toxml") {
 		c.Out = "xml"
+	}
+	if !g.special && rapid.IntRange(0, 5).Draw(t, "tocsv") == 0 {
+		// rows for the flat formats: a sequence of maps at the top, written as CSV or TSV
+		rows := model.NewSeq()
+		for i := rapid.IntRange(2, 4).Draw(t, "nrows"); i > 0; i-- {
+			m := model.NewMap()
+			m.Set("id", model.NewInt(g.num()))
+			if len(rows.Elem) > 0 && rapid.IntRange(0, 1).Draw(t, "nestedcell") == 0 {
+				m.Set("v", model.NewMap().Set(g.key(), model.NewStr(g.str())))
+			} else {
+				m.Set("v", model.NewStr(g.str()))
+			}
+			rows.Elem = append(rows.Elem, m)
+		}
+		c.Doc, c.Expr, c.Out = rows.JSON(), ".", rapid.SampledFrom([]string{"csv", "tsv"}).Draw(t, "flatout")
 	}
 	c.Nul = rapid.IntRange(0, 4).Draw(t, "nul") == 0
 	return c
